@@ -128,6 +128,8 @@ def gen_sub(rnd, nops, kinds, nin=1, share=True):
   sinks = [t for t in produced if t not in used]
   extra = [t for t in produced if t in used and rnd.random() < 0.25]
   gouts = sorted(set(sinks + extra))
+  if rnd.random() < 0.1:        # a graph input returned as it is (return x, f(x))
+    gouts = gouts + [rnd.randrange(nin)]
   if rnd.random() < 0.12:       # the same tensor listed twice among the outputs (return y, y)
     gouts = gouts + [rnd.choice(gouts)]
   sub = {"ops": ops, "trole": role, "tbuf": tbuf, "tsh": [list(x) for x in tsh], "gins": list(range(nin)), "gouts": gouts,
